@@ -239,6 +239,9 @@ type c20Client struct {
 	Cfg     *tls.Config
 	Loaded  string // file content name at first load of this setting
 	Seen    string // content the setting's watcher has seen (reference)
+	// Applied is the sequence of contents this setting has been given (first load, then every refresh), last four:
+	// part of the canonical state, because what a pool did at earlier refreshes may shape what the next one installs
+	Applied []string
 }
 
 type c20Sys struct {
@@ -320,7 +323,7 @@ func c20Model(run *ev.Run, settings []string) seqx.Model {
 						run.Violation("C20 equal-settings-not-shared", fmt.Sprintf("second load of setting %s returned a different *tls.Config", e.Arg), full)
 					}
 				} else {
-					c := &c20Client{Setting: e.Arg, Cfg: cfg, Loaded: s.content, Seen: s.content}
+					c := &c20Client{Setting: e.Arg, Cfg: cfg, Loaded: s.content, Seen: s.content, Applied: []string{s.content}}
 					s.clients = append(s.clients, c)
 					s.byName[e.Arg] = c
 				}
@@ -337,6 +340,12 @@ func c20Model(run *ev.Run, settings []string) seqx.Model {
 				for _, c := range s.clients {
 					if c20Settings[c.Setting].Interval != "unset" && c20Settings[c.Setting].Interval != "0" {
 						if s.content != "garbage" {
+							if c.Seen != s.content {
+								c.Applied = append(c.Applied, s.content)
+								if len(c.Applied) > 4 {
+									c.Applied = c.Applied[len(c.Applied)-4:]
+								}
+							}
 							c.Seen = s.content
 						}
 					}
@@ -384,7 +393,7 @@ func c20Model(run *ev.Run, settings []string) seqx.Model {
 			s := sy.(*c20Sys)
 			var parts []string
 			for _, c := range s.clients {
-				parts = append(parts, fmt.Sprintf("%s:trust=%s:seen=%s", c.Setting, c.Last, c.Seen))
+				parts = append(parts, fmt.Sprintf("%s:trust=%s:seen=%s:applied=%s", c.Setting, c.Last, c.Seen, strings.Join(c.Applied, ">")))
 			}
 			sort.Strings(parts)
 			h := ""
